@@ -223,6 +223,25 @@ func (fx *FuncExec) obligeClause(kind string, st *State, env *SpecEnv, c Clause,
 	}
 }
 
+// invBool evaluates a loop invariant. Invariants are proof aids: one that no longer fits the code (it
+// names a local that is gone or has another type) is neither assumed nor checked - sound, the remaining
+// obligations then have to do without it - and reported as a clause that was not used.
+func (fx *FuncExec) invBool(env *SpecEnv, c Clause) (goal string, ok bool) {
+	defer func() {
+		if r := recover(); r != nil {
+			if tl, isTL := r.(toolLimitErr); isTL {
+				if fx.discard == 0 {
+					fx.note("loop invariant not used (does not fit the code): " + tl.msg)
+				}
+				goal, ok = "", false
+				return
+			}
+			panic(r)
+		}
+	}()
+	return fx.evalBool(env, c), true
+}
+
 // indexedBase names the variable an index/slice instruction operates on ("" if it is not a plain
 // local, parameter or captured variable).
 func indexedBase(in ssa.Instruction) string {
@@ -641,7 +660,9 @@ func (fx *FuncExec) loopHead(li *loopInfo, pre *State) *State {
 		env := fx.specEnv(pre, fx.entry)
 		env.loop = li
 		for _, inv := range li.spec.Invariants {
-			fx.oblige("inv-init", pre, fx.evalBool(env, inv), fmt.Sprintf("loop %s invariant holds on entry: %s", li.name, inv.Text), pos)
+			if g, ok := fx.invBool(env, inv); ok {
+				fx.oblige("inv-init", pre, g, fmt.Sprintf("loop %s invariant holds on entry: %s", li.name, inv.Text), pos)
+			}
 		}
 	}
 	// ---- the loop frame -----------------------------------------------------------------------------
@@ -704,7 +725,9 @@ func (fx *FuncExec) loopHead(li *loopInfo, pre *State) *State {
 		env := fx.specEnv(st, fx.entry)
 		env.loop = li
 		for _, inv := range li.spec.Invariants {
-			fx.assume(st, fx.evalBool(env, inv))
+			if g, ok := fx.invBool(env, inv); ok {
+				fx.assume(st, g)
+			}
 		}
 	}
 	if fx.V.covers && li.spec != nil && len(li.spec.Invariants) > 0 {
@@ -766,7 +789,9 @@ func (fx *FuncExec) backEdge(li *loopInfo, st *State) {
 	env := fx.specEnv(st, fx.entry)
 	env.loop = li
 	for _, inv := range li.spec.Invariants {
-		fx.oblige("inv-keep", st, fx.evalBool(env, inv), fmt.Sprintf("loop %s invariant preserved: %s", li.name, inv.Text), pos)
+		if g, ok := fx.invBool(env, inv); ok {
+			fx.oblige("inv-keep", st, g, fmt.Sprintf("loop %s invariant preserved: %s", li.name, inv.Text), pos)
+		}
 	}
 	envStep := fx.specEnv(st, li.old)
 	envStep.loop = li
